@@ -240,3 +240,17 @@ plaintext_real!(c02_plaintext_heartbeat_0, 0x18, 0);
 plaintext_real!(c02_plaintext_heartbeat_2, 0x18, 2);
 plaintext_real!(c02_plaintext_heartbeat_3, 0x18, 3);
 plaintext_real!(c02_plaintext_heartbeat_5, 0x18, 5);
+
+/// Vacuity guard (thorough tier): must FAIL.
+#[cfg(feature = "thorough")]
+#[kani::proof]
+#[kani::unwind(4)]
+fn c02_false_twin() {
+    let buf: [u8; 13] = kani::any();
+    let n: usize = kani::any();
+    kani::assume(n <= 13);
+    let b = &buf[..n];
+    let r = tp::parse_tls_raw_record(b);
+    check_frame!("C02.raw", b, r, |v| (&v.hdr, v.data));
+    vassert!(false, "C02.false_twin");
+}
